@@ -1,6 +1,9 @@
 package schema
 
-import "regexp"
+import (
+	"fmt"
+	"regexp"
+)
 
 var unitsProperty = NewPropertySchema(
 	NewRefSchema("Units", nil),
@@ -1318,7 +1321,11 @@ func UnserializeScope(data any) (*ScopeSchema, error) {
 	if err != nil {
 		return nil, err
 	}
-	return s.(*ScopeSchema), nil
+	result := s.(*ScopeSchema)
+	if err := prepareReceivedScope(result); err != nil {
+		return nil, err
+	}
+	return result, nil
 }
 
 // UnserializeSchema unserializes an entire schema definition from raw data.
@@ -1328,6 +1335,61 @@ func UnserializeSchema(data any) (*SchemaSchema, error) {
 		return nil, err
 	}
 	result := s.(*SchemaSchema)
-	result.applyNamespace()
+	if err := result.prepareReceived(); err != nil {
+		return nil, err
+	}
 	return result, nil
+}
+
+// prepareReceivedScope links the self-namespace references of a scope that was rebuilt from a description
+// and performs the checks a scope built with the constructors gets at construction time: the root object
+// exists under its own ID, references have targets, one-of members agree with the inlining flag, default
+// values are valid JSON. The description may come from an untrusted plugin, so every problem - including
+// the panics the linking code raises for mis-built schemas - is returned as an error; otherwise the same
+// panic would hit the engine later, on first use of the schema.
+func prepareReceivedScope(scope *ScopeSchema) (err error) {
+	defer func() {
+		if r := recover(); r != nil {
+			err = &ConstraintError{
+				Message: fmt.Sprintf("invalid scope definition: %v", r),
+			}
+		}
+	}()
+	scope.ApplySelf()
+	checkReceivedType(scope, map[*ObjectSchema]struct{}{})
+	return nil
+}
+
+// checkReceivedType walks a rebuilt type and touches everything that is otherwise evaluated lazily (and
+// panics if it is invalid). It is called under the recover of prepareReceivedScope.
+func checkReceivedType(t Type, visited map[*ObjectSchema]struct{}) {
+	switch typed := t.(type) {
+	case *ScopeSchema:
+		typed.RootObject()
+		for _, object := range typed.ObjectsValue {
+			checkReceivedType(object, visited)
+		}
+	case *ObjectSchema:
+		if _, done := visited[typed]; done {
+			return
+		}
+		visited[typed] = struct{}{}
+		typed.GetDefaults()
+		for _, property := range typed.PropertiesValue {
+			checkReceivedType(property.TypeValue, visited)
+		}
+	case *ListSchema:
+		checkReceivedType(typed.ItemsValue, visited)
+	case *MapSchema[Type, Type]:
+		checkReceivedType(typed.KeysValue, visited)
+		checkReceivedType(typed.ValuesValue, visited)
+	case *OneOfSchema[string]:
+		for _, member := range typed.TypesValue {
+			checkReceivedType(member, visited)
+		}
+	case *OneOfSchema[int64]:
+		for _, member := range typed.TypesValue {
+			checkReceivedType(member, visited)
+		}
+	}
 }
